@@ -442,8 +442,14 @@ def process_tpmu(tpm_type, path, selector, size_constraints=None, abort_on_error
         # selector value fails to select union member
         # only possible if value checking is turnt off
         # TODO only possible if value checking is turnt off
-        raise AssertionError(
-            f"Selection error in {path} ({tpm_type.__name__}): {selector} not in {selection}. Value checking should have taken when parsing the selector, right?"
+        # (only reachable if the selector was invalid and value checking only warned about it)
+        raise ValueConstraintViolatedError(
+            constraint=ValueConstraint(
+                constraint_path=path,
+                tpm_type=type(selector),
+                valid_values=ValidValues(*selection.keys()),
+            ),
+            value=selector,
         )
         # raise ValueConstraintViolatedError(
         #     tpm_type=None,  # TODO type of selector
